@@ -212,7 +212,44 @@ def _gen_query(rng: random.Random, files: list[str]) -> str:
     return q
 
 
+def _gen_chain_case(rng: random.Random) -> dict:
+    """Three or four shared directories nested in one another, added in any order, one removed: exercises the
+    choice of the INNERMOST parent on add and on remove."""
+    names = [_gen_name(rng, 1) for _ in range(4)]
+    depth = rng.choice([3, 3, 4])
+    chain = ['/'.join(names[:k]) for k in range(1, depth + 1)]
+    if rng.random() < 0.3:
+        chain = ['.'] + chain[:-1]
+    files = []
+    for d in chain:
+        for _ in range(rng.choice([1, 1, 2])):
+            f = (_gen_name(rng, rng.choice([1, 2])) + '.' + rng.choice(EXTS))
+            f = f if d == '.' else d + '/' + f
+            if f not in files and f not in chain:
+                files.append(f)
+    ops: list = [['touch', f] for f in files]
+    order = list(chain)
+    rng.shuffle(order)
+    first = order[0]
+    ops += [['add', first], ['scan', first], ['stats']]
+    for d in order[1:]:
+        ops += [['add', d], ['stats']]
+        if rng.random() < 0.5:
+            ops += [['scan', d], ['stats']]
+    if rng.random() < 0.5 and len(ops) < 30:
+        ops += [['scanall'], ['stats']]
+    victim = rng.choice(chain)
+    ops += [['remove', victim, rng.choice(['str', 'obj'])], ['stats']]
+    for _ in range(4):
+        ops.append(['query', _gen_query(rng, files)])
+    if rng.random() < 0.5:
+        ops += [['add', victim], ['stats'], ['query', _gen_query(rng, files)]]
+    return {'cap': rng.choice([1, 2, 100]), 'ops': ops}
+
+
 def _gen_case(rng: random.Random) -> dict:
+    if rng.random() < 0.15:
+        return _gen_chain_case(rng)
     dirs, files = _gen_tree(rng)
     ops: list = [['touch', f] for f in files]
     disk = list(files)
@@ -713,6 +750,9 @@ def _monitor(case: dict, impl: list) -> list[Violation]:
                 why = 'is not a shared file' if extra[0] not in known else 'does not match the query'
                 vs.append(Violation('C07-query-unmatched', f'op #{i}: query {op[1]!r} returned {extra[0]!r} which {why}',
                                     case, observed=got, required=sorted(matching)))
+            elif len(got) > cap:
+                vs.append(Violation('C07-query-cap', f'op #{i}: query {op[1]!r} returned {len(got)} files, more than '
+                                                     f'max_results = {cap}', case, observed=got, required=cap))
             elif len(got) != min(cap, len(matching)):
                 miss = sorted(matching - set(got))
                 vs.append(Violation('C07-query-missing',
